@@ -3,10 +3,16 @@ order, looking through the `?` desugaring."""
 from db import walk, children, pat_leaves, pat_path, pat_bindings, callee, strip
 
 
+import re
+
+_LT = re.compile(r"<'[A-Za-z_{}]+>")
+_LT2 = re.compile(r"'[A-Za-z_{}]+, ")
+
+
 def base_ty(t):
     if t is None:
         return None
-    t = t.strip()
+    t = _LT2.sub("", _LT.sub("", t.strip()))
     while True:
         if t.startswith("&mut "):
             t = t[5:]
